@@ -17,9 +17,9 @@ def cohB (d : Disk) : Bool :=
   decide (volKeyBlock < d.raw.units.size) &&
   (match d.bitmap with
    | none => false
-   | some b => decide (d.bitmapBlocks = List.range' (bptrOf d.raw) (bitmapBlockCount d.total)) && decide (b.size = bitmapBlockCount d.total * 512) &&
-       decide (bptrOf d.raw + bitmapBlockCount d.total ≤ d.raw.units.size) &&
-       decide (volKeyBlock < bptrOf d.raw ∨ bptrOf d.raw + bitmapBlockCount d.total ≤ volKeyBlock))
+   | some b => decide (d.bitmapBlocks = List.range' (bptrOf d.raw) (d.bmCount)) && decide (b.size = d.bmCount * 512) &&
+       decide (bptrOf d.raw + d.bmCount ≤ d.raw.units.size) &&
+       decide (volKeyBlock < bptrOf d.raw ∨ bptrOf d.raw + d.bmCount ≤ volKeyBlock))
 
 theorem coh_of_cohB {d : Disk} (h : cohB d = true) : Coh d := by
   unfold cohB at h
@@ -38,10 +38,10 @@ theorem exD_coh : Coh exD := coh_of_cohB (by decide +kernel)
 def freeOf (x : R Nat × Disk) : Nat := match x.1 with | .ok n => n | .error _ => 99999
 
 /-- the variant of `get_img` that forgets the buffer, followed by `load` -/
-def reloadForgetful (d : Disk) : Disk := match saveForgetful d with | .ok b => load b | .error _ => d
+def reloadForgetful (d : Disk) : Disk := match saveForgetful d with | .ok b => load d.src b | .error _ => d
 
 theorem reloadForgetful_eq {d : Disk} (h : Coh d) :
-    reloadForgetful d = { raw := d.raw, total := d.total, bitmap := none, bitmapBlocks := [] } := by
+    reloadForgetful d = { raw := d.raw, total := d.total, bitmap := none, bitmapBlocks := [], src := d.src } := by
   unfold reloadForgetful saveForgetful load
   simp only
   rw [ofBytes_toBytes h.shaped, h.total]
@@ -49,7 +49,7 @@ theorem reloadForgetful_eq {d : Disk} (h : Coh d) :
 set_option maxRecDepth 1000000 in
 /-- 3 of the 10 blocks are free in the object; the image underneath (its bitmap block is still all zero) shows none -/
 theorem exD_free : freeOf (statFree exD) = 3 ∧
-    freeOf (statFree { raw := exD.raw, total := exD.total, bitmap := none, bitmapBlocks := [] }) = 0 := by decide +kernel
+    freeOf (statFree { raw := exD.raw, total := exD.total, bitmap := none, bitmapBlocks := [], src := exD.src }) = 0 := by decide +kernel
 
 
 set_option maxRecDepth 1000000 in
